@@ -292,4 +292,21 @@ PROPS = {
         "rule": "non-trivial: at least two directories and two import forms, or a data-file import, or no go.mod. Distinct = distinct case JSON.",
         "assumptions": COMMON_ASSUMPTIONS,
     },
+    "C18": {
+        "level": "exploration",
+        "technique": "property-based testing / fuzzing (rapid): generated sandbox configurations x escape-attempt sources; oracle = reference decision 'is every reference in the configured library/scope' plus capability and canary checks on the result and on recording filesystems",
+        "level_text": "Generated-input search: sandboxes created with //eval.eval (default safe library) and //eval.evaluator(config).eval for configs with a scope, a proper sub-tuple "
+                      "of the library (1-3 whole packages), the empty library, or both; sources reference one of 13 library members (text, sequence, math, bits, codecs, relational, os.file, "
+                      "os.exists, net.http.get/post, deprecated.exec) directly, inside a collection, through let, through an applied lambda, through a lambda that is returned and applied outside, "
+                      "through a nested //eval.eval, through //eval.value, by walking //std.safe, by naming a sandbox-scope or an outer-scope variable, or through import syntax. Oracle: the harness "
+                      "decides from the configuration whether every reference is available: available => the program evaluates; otherwise it must fail. Independently the result may never print the "
+                      "outer secret, canary file content or a native file/network/exec function that was not passed in, and the recording source/runtime filesystems may see no read.",
+        "level_note": "Trusted: the availability decision in genC18 (a walk of SafeStdScopeTuple for the default configuration), function markers in printed values, recording filesystems, rapid. "
+                      "Three open known findings (eval.value route, exec in the safe library, import syntax) are excused by the route the generated source takes, not by the outcome.",
+        "tests": [{"name": "TestC18", "quick": 1500, "thorough": 25000}],
+        "rule": "non-trivial: any shape other than a direct reference, or a custom library. Distinct = distinct program text.",
+        "assumptions": COMMON_ASSUMPTIONS + [
+            "os.exists/os.tree (file metadata) are in the safe library by design and are not counted as file-reading functions",
+        ],
+    },
 }
